@@ -28,8 +28,9 @@ import (
 // decrypts file i, rewrite = ioutil.WriteFile of the re-encrypted file, save = SaveDataEncryptionKeys).
 // The data files are written with plain OS calls, so only the events that pass through the keystore can
 // be intercepted; a crash before/after a rewrite is the same persistent state as a crash after the
-// preceding / before the following keystore event and is injected there. Errors and torn writes of a
-// rewrite exist in the model only.
+// preceding / before the following keystore event and is injected there. A WRITE ERROR of a rewrite is real:
+// mode sys<n> at rewrite i lowers the process file size limit to n bytes right after the keystore read of file i
+// (run in a child process), so the tool's ioutil.WriteFile truncates the file, stores n bytes and fails.
 // Answer: "<outcome>;<per file: o|n|x>;<keys offered after restart, newest first: 0 | 1.0>".
 //
 //	C08.rotin <v1|v2> <j> <n>    (implementation only) crash right after the j-th storage call INSIDE the save
@@ -43,6 +44,7 @@ type rotKS struct {
 	in        *Injector
 	saveArm   int // ≥ 0: arm the storage injector (crash after call saveArm) during the save
 	saveCalls []string
+	restore   func() // undo a lowered file size limit
 }
 
 func (k *rotKS) GetServerDecryptionPrivateKeys(id []byte) ([]*keys.PrivateKey, error) {
@@ -57,6 +59,12 @@ func (k *rotKS) GetServerDecryptionPrivateKeys(id []byte) ([]*keys.PrivateKey, e
 		case ModeCrashAfter:
 			k.RotateStorageKeyStore.GetServerDecryptionPrivateKeys(id)
 			panic(crashSignal{})
+		}
+		if limit, isSys := k.when.sysLimit(); isSys {
+			// the next file write of this process is the tool's rewrite of file i
+			keys, err := k.RotateStorageKeyStore.GetServerDecryptionPrivateKeys(id)
+			k.restore = lowerFileSizeLimit(limit)
+			return keys, err
 		}
 	}
 	return k.RotateStorageKeyStore.GetServerDecryptionPrivateKeys(id)
@@ -144,6 +152,11 @@ func runRotate(format string, mode Mode, k, n int, inner int) rotResult {
 		ks.saveArm = inner
 	} else if mode != ModeNone {
 		switch {
+		case strings.HasPrefix(string(mode), "sys"):
+			if k%2 != 1 {
+				panic("harness: a file size limit fault belongs to a rewrite event")
+			}
+			ks.at, ks.index, ks.when = "read", k/2, mode
 		case k == 2*n:
 			ks.at, ks.when = "save", mode
 		case k%2 == 0:
@@ -175,6 +188,13 @@ func runRotate(format string, mode Mode, k, n int, inner int) rotResult {
 		return "ok"
 	}()
 	in.Disarm()
+	if ks.restore != nil {
+		ks.restore()
+		if res.Outcome != "err" {
+			panic("harness: the file size limit did not make the rewrite of the data file fail")
+		}
+	}
+	_, sysMode := mode.sysLimit()
 	res.Calls = ks.saveCalls
 	// ---- restart: what does the keystore offer, what do the files hold?
 	if err := w.Open(); err != nil {
@@ -243,6 +263,10 @@ func runRotate(format string, mode Mode, k, n int, inner int) rotResult {
 			if state == "n" && res.Offered == "0" && (mode != ModeNone || inner >= 0) {
 				class = "rotate-tool:data-rewritten-before-key-saved"
 			}
+			if state == "x" && sysMode && i == k/2 {
+				// the rewrite in place failed after the file was truncated
+				class = "rotate-tool:data-file-torn-in-place"
+			}
 			res.Findings = append(res.Findings, c06.Finding{Class: class, Desc: fmt.Sprintf(
 				"acra-rotate (files) cut at event %d (%s) of [read,rewrite]×%d+save, outcome %s: data file %d (state %s) can be decrypted with none of the keys the keystore offers after restart (%s)", k, mode, n, res.Outcome, i, state, res.Offered)})
 		}
@@ -266,6 +290,9 @@ func init() {
 		lastMu.Lock()
 		lastRot = res
 		lastMu.Unlock()
+		if p := os.Getenv(resultFileEnv); p != "" {
+			appendResult(p, "C08.rot "+strings.Join(a, " "), Result{Outcome: res.Outcome, Findings: res.Findings})
+		}
 		return res.Outcome + ";" + res.Files + ";" + res.Offered
 	})
 	core.Register("C08.rotin", func(a []string) string {
